@@ -348,7 +348,8 @@ def dot(a, b):
             a = as_coo(a)
         if isinstance(b, SparseArray):
             b = as_coo(b)
-        return (a * b).sum()
+        # np.dot keeps the operands' result dtype; .sum() alone would promote int32 to int64
+        return (a * b).sum(dtype=np.result_type(a.dtype, b.dtype))
 
     a_axis = -1
     b_axis = -2
@@ -1380,7 +1381,7 @@ def _einsum_single(lhs, rhs, operand):
     if lhs == rhs:
         if not rhs:
             # ensure scalar output
-            return operand.sum()
+            return operand.sum(dtype=operand.dtype)
         return operand
 
     if not isinstance(operand, SparseArray):
@@ -1426,7 +1427,7 @@ def _einsum_single(lhs, rhs, operand):
 
     if not rhs:
         # scalar output - match numpy behaviour by not wrapping as array
-        return new_data.sum()
+        return new_data.sum(dtype=new_data.dtype)
 
     return to_output_format(COO(new_coords, new_data, shape=new_shape, has_duplicates=True))
 
